@@ -36,7 +36,12 @@ def build_tree(sc: Scratch) -> Tree:
     t.file("hot/.abstract", "The hot directory")
     t.file("small.txt", "small\n")
     t.file("large.bin", trees.gen_content(rng, 300000, "binary"))
-    t.file("mail.mbox", trees.make_mbox(["First", "Second", "Third"], sc.path))
+    # several large documents, each block of each naming its file and offset: foreign bytes are recognisable
+    for k in range(4):
+        t.file("big%d.txt" % k, b"".join(b"big%d@%09d|" % (k, off) + b"x" * 48 + b"\n" for off in range(0, 400000 + 70000 * k, 64)))
+    subjects = ["Message number %d" % i for i in range(1, 13)]
+    bodies = ["".join("mbox message %d line %d %s\n" % (i, ln, "y" * 40) for ln in range(60 + 5 * i)) for i in range(1, 13)]
+    t.file("mail.mbox", trees.make_mbox(subjects, sc.path, bodies=bodies))
     z = Tree().file("m1.txt", "member one\n" * 40).file("sub/m2.txt", "member two\n").file("sub/m3.html", "<html><title>M3</title></html>")
     for i in range(30):
         z.file("many/f%02d.txt" % i, "f%d" % i)
@@ -75,6 +80,12 @@ def request_mix() -> typing.List[typing.Tuple[str, bytes, typing.Optional[bytes]
         mix.append((v, b"/nope", None))
         mix.append((v, b"/packed.txt.gz", None))
     mix.append(("http", b"/PYGOPHERD-HTTPPROTO-ICONS/text.gif", None))
+    # different large documents and different messages of one mailbox, in flight together
+    for k in range(4):
+        for v in ("gopher", "http", "gopherp+", "spartan"):
+            mix.append((v, b"/big%d.txt" % k, None))
+    for i in range(1, 13):
+        mix.append((("gopher", "http", "gemini", "spartan")[i % 4], b"/mail.mbox|/MBOX-MESSAGE/%d" % i, None))
     # selectors carrying a leading item-type component (rewritten by url.URLTypeRewriter before the look-up)
     for v in ("gopher", "gopherp+", "http", "gopher", "spartan"):
         mix.append((v, b"/0/small.txt", None))
